@@ -132,6 +132,7 @@ static void describe_term(Term const& x, std::ostream& os)
     if (x.node == N_THEN_THROW) os << "throw#" << x.err << " ";
     if (x.node == N_SPLIT) os << "consumers=" << x.k << " ";
     if ((x.node == N_SPLIT || x.node == N_SPLIT_TUPLE) && x.obs) os << "each_consumer_observes_errors ";
+    if (x.node == N_DROP_OP_STATE && x.obs) os << "over_unerased_split ";
     if (x.node == N_BULK) os << "n=" << x.k * 3 << " ";
     for (std::size_t i = 0; i < x.kids.size(); ++i)
     {
@@ -365,7 +366,12 @@ static sender_t build(Term const& x, long long off)
     }
     case N_CONTINUES_ON: return sender_t(ex::continues_on(build(*x.kids[0], off), sched));
     case N_DROP_VALUE_THEN: { long long v = x.val; return sender_t(ex::then(ex::drop_value(build(*x.kids[0], off)), [v] { return P(v); })); }
-    case N_DROP_OP_STATE: return sender_t(ex::drop_operation_state(build(*x.kids[0], off)));
+    case N_DROP_OP_STATE:
+        // variant (same denotation): the predecessor is an un-erased split, i.e. it sends `P const&` into its shared state, and this
+        // pipeline holds the only reference to that state: whatever drop_operation_state forwards after releasing the predecessor's
+        // operation state must not point into it
+        if (x.obs) return sender_t(ex::then(ex::drop_operation_state(ex::split(build(*x.kids[0], off))), [](P const& p) { return P(p.v); }));
+        return sender_t(ex::drop_operation_state(build(*x.kids[0], off)));
     case N_REQUIRE_STARTED: return sender_t(ex::require_started(build(*x.kids[0], off)));
     case N_ENSURE_STARTED: return sender_t(ex::ensure_started(build(*x.kids[0], off)));
     case N_ANY_SENDER: { ex::any_sender<P> a(ex::split(build(*x.kids[0], off))); ex::any_sender<P> b = a; return sender_t(std::move(b)); }
